@@ -63,15 +63,28 @@ FieldRequests(pd) ==
     \cup { [q |-> "fext", forces |-> Forces1(pd), forcesInc |-> Forces2(pd), inc |-> i] @@ NoPlace : i \in {ROne, R(3,8)} }
     \cup { [q |-> "fext", forces |-> <<>>, forcesInc |-> Forces1(pd), inc |-> R(1,2)] @@ NoPlace }
 
+(* non-linear requests: small orders, flags that leave in-plane and out-of-plane amplitudes active *)
+NLDefs == { PD(mo, R(2,1), R(3,2), IF mo = "cpanel" THEN R(4,1) ELSE RZero, RZero, ROne, mn[1], mn[2], fl, lam,
+               RZero, ROne, R(3,1), Zero3) :
+              mo \in {"plate", "cpanel"}, mn \in (IF Tier = "quick" THEN {<<2,2>>} ELSE {<<2,2>>, <<3,2>>, <<2,3>>}),
+              fl \in (IF Tier = "quick" THEN {FlPrimes} ELSE {FlPrimes, FlMixed}), lam \in {LamGen} }
+          \cup { PD("plate", R(2,1), R(3,2), RZero, RZero, ROne, 4, 3, FlFree, LamGen, RZero, ROne, R(3,1), Zero3) }
+NLState(pd, amp) == Fn([k \in 1..(3 * pd.m * pd.n) |-> RMul(amp, R(((k * 5 + 2) % 9) - 4, 16))])
+NLRequests(pd) ==
+    IF pd.m = 4 THEN { [q |-> "kGc", c |-> NLState(pd, ROne), NL |-> FALSE] @@ NoPlace }
+    ELSE { [q |-> qq, c |-> NLState(pd, amp)] @@ NoPlace : qq \in {"fint", "kT"}, amp \in {ROne, R(1,8)} }
+         \cup { [q |-> "kGc", c |-> NLState(pd, ROne), NL |-> nl] @@ NoPlace : nl \in BOOLEAN }
+
 VARIABLE phase
 EmitInit == PInit /\ phase = 0
 EmitNext ==
     \/ /\ phase = 0 /\ phase' = 1
-       /\ \E pd \in Defs \cup AeroDefs : Define(pd) /\ PrintT(<<"DEF", pd>>)
+       /\ \E pd \in Defs \cup AeroDefs \cup NLDefs : Define(pd) /\ PrintT(<<"DEF", pd>>)
     \/ /\ phase = 1 /\ phase' = 2
-       /\ \E pd \in Defs \cup AeroDefs : def = CompleteDef(pd) /\
+       /\ \E pd \in Defs \cup AeroDefs \cup NLDefs : def = CompleteDef(pd) /\
              \E r \in (IF pd \in AeroDefs THEN AeroRequests(pd) ELSE {}) \cup (IF pd \in Defs THEN Requests(pd) ELSE {})
-                        \cup (IF pd \in FieldDefs THEN FieldRequests(pd) ELSE {}) :
+                        \cup (IF pd \in FieldDefs THEN FieldRequests(pd) ELSE {})
+                        \cup (IF pd \in NLDefs THEN NLRequests(pd) ELSE {}) :
                  r.q \in Qs /\ Eval(r) /\ PrintT(<<"REQ", pd, r>>)
 EmitSpec == EmitInit /\ [][EmitNext]_<<pvars, phase>>
 =============================================================================
